@@ -65,3 +65,24 @@ void _ZNSt8ios_base4InitD1Ev(void *p) {}
 void _ZNSt6thread15_M_start_threadESt10unique_ptrINS_6_StateESt14default_deleteIS1_EEPFvvE(void *a, void *b, void *c) { VT_FATAL("std::thread start not modelled"); }
 void _ZNSt6thread4joinEv(void *a) { }
 void _ZNSt6thread6_StateD2Ev(void *a) { }
+
+/* sqrt: CBMC's built-in model is a relation, not a function (two calls on equal arguments may differ), so every sqrt of the
+ * analysed module goes through this functionally consistent contract stub: for x >= 0 the result is a non-NaN value >= 0,
+ * zero exactly for x == 0, infinite exactly for x == +inf; NaN for x < 0 or NaN.  Monotonicity/accuracy are NOT assumed.
+ * Native builds compute the real sqrt and flag counterexamples whose stub value differs (STUB-DIVERGENCE). */
+#include <math.h>
+#ifdef __CPROVER__
+uint64_t __CPROVER_uninterpreted_vt_sqrt(uint64_t);
+double vt_sqrt(double x)
+{
+    union { double d; uint64_t u; } a, r;
+    a.d = x;
+    if (x == 0.0) return x;
+    r.u = __CPROVER_uninterpreted_vt_sqrt(a.u);
+    if (x > 0.0) { __CPROVER_assume(r.d > 0.0); __CPROVER_assume((x == (1.0 / 0.0)) == (r.d == (1.0 / 0.0))); }
+    else __CPROVER_assume(r.d != r.d);
+    return r.d;
+}
+#else
+double vt_sqrt(double x) { return sqrt(x); }
+#endif
